@@ -464,6 +464,13 @@ func runWorkloadIn(in wlInput, scratch []byte) (out []byte) {
 		call()
 		t.add("ident", css.IsIdent(cp()), css.IsURLUnquoted(cp()))
 		t.add("hash", css.ToHash(d).String(), html.ToHash(d).String())
+		// byte slices the library itself hands out, passed on to library functions whose
+		// argument is read-only (a predicate, a lookup): plain API use, no caller-shared data
+		ch := []css.Hash{css.Font_Face, css.Keyframes, css.Media, css.Supports, css.Document}[in.opt%5]
+		hh := []html.Hash{html.Script, html.Style, html.Iframe, html.Title, html.Textarea}[in.opt%5]
+		call()
+		t.add("ident-of-hash", ch.Bytes(), css.IsIdent(ch.Bytes()), css.IsURLUnquoted(hh.Bytes()), css.ToHash(ch.Bytes()) == ch, html.ToHash(hh.Bytes()) == hh)
+		t.add("jsident-of-token", js.AsIdentifierName(js.FunctionToken.Bytes()), js.IsIdentifierStart(js.AddToken.Bytes()), parse.EqualFold(hh.Bytes(), hh.Bytes()), parse.Number(ch.Bytes()))
 		q, qn := parse.QuoteEntity(d)
 		t.add("quoteent", q, qn)
 		t.add("jsident", js.AsIdentifierName(d), js.AsDecimalLiteral(d), js.IsIdentifierStart(d), js.IsIdentifierContinue(d), js.IsIdentifierEnd(d))
